@@ -1043,6 +1043,18 @@ func main() {
 	if *stage == "all" || *stage == "offfix" {
 		d.stageOfflineFixtures()
 	}
+	if *stage == "all" || *stage == "names" {
+		d.stageEtagNames()
+	}
+	if *stage == "all" || *stage == "etags" {
+		d.stageEtagShapes()
+	}
+	if *stage == "all" || *stage == "etaglong" {
+		d.stageEtagTooLong()
+	}
+	if *stage == "all" || *stage == "sameetag" {
+		d.stageSharedEtag()
+	}
 	if *stage == "all" || *stage == "cli" {
 		d.stageCLI()
 	}
